@@ -5,6 +5,12 @@ from common import Fr, enc_f, dec_f, close, rng
 import gmgen, rggen
 
 LEAN_MODULE = 'PGM.Properties.C17'
+LEAN_EXTRA = [
+    'PGM.Properties.C17G',
+]
+TRANSLATORS = (
+    'py2rg',      # region_graph.py (hazan_peng_shashua, generalized_belief_propagation, primal_feasibility, build_graph) -> Generated/RegionGraphG.lean, proved equal to Model/RegionGraph.lean in C17G
+)
 TRUSTED = ['Lean 4.33 kernel', 'axioms: propext, Classical.choice, Quot.sound',
            'hand model PGM/Model/RegionGraph.lean (hazan_peng_shashua with persisted messages, primal_feasibility, dualValue, primalValue) '
            'tied to src/mbi/region_graph.py by this correspondence run (Float instance, rel 1e-9)',
